@@ -78,7 +78,14 @@ G5 == << GDoc("G5", "deny-list", ("T" :> [type |-> "string", not |-> [enum |-> <
          GDoc("G5", "set-of-floats", ("T" :> SSet(SNum))),
          GDoc("G5", "set-of-objects", ("T" :> SSet(SObj(Props1("q", SInt), {})))) >>
 
-GUniverse == G1 \o G2 \o G3 \o G5
+(* recursion through tuples, fixed arrays and maps (no instances are generated for these) *)
+G6 == << GDoc("G6", "self-tuple", ("T" :> SObj(Props2("v", SInt, "t", STuple(<<SStr, SRef("T")>>)), {"v"}))),
+         GDoc("G6", "self-tuple-nullable", ("T" :> SObj(Props2("v", SInt, "t", SNullable(STuple(<<SRef("T"), SInt>>))), {"v", "t"}))),
+         GDoc("G6", "mutual-tuple", ("T" :> SOneOf(<<SInt, SRef("U")>>)) @@ ("U" :> STuple(<<SRef("T"), SRef("T")>>))),
+         GDoc("G6", "self-fixed-array", ("T" :> SObj(Props1("a", SFixed(SRef("T"), 2)), {}))),
+         GDoc("G6", "self-enum-variant", ("T" :> SOneOf(<< ExtVar("Leaf", SInt), ExtVar("Node", STuple(<<SRef("T"), SRef("T")>>)) >>))) >>
+
+GUniverse == G1 \o G2 \o G3 \o G5 \o G6
 
 (* documents that are inside the supported fragment *)
 SupportedIds == { <<"G2", "scalars">>, <<"G2", "containers">>, <<"G2", "tuple2">>, <<"G2", "nested-struct">>,
